@@ -486,6 +486,9 @@ class BusCookieAuthenticator :
 
             os.rename(self.lock_file, self.cookie_file)
 
+        # the cookie is gone: cancel() must not delete it a second time
+        self.cookieId = None
+
 
 @implementer(IBusAuthenticationMechanism)
 class BusExternalAuthenticator :
